@@ -131,6 +131,9 @@ class SymFactory:
         self.I.assume(self.I.truth(cond))
         return None
 
+    def seeded_rng(self, name):
+        raise Unsupported('native-only input builder (generated documents): this contract is a bounded stand-in')
+
     def enum_in(self, name, cls, allowed):
         v = self._reg(name, z3.Int(name))
         ms = self.I.enum_members(cls)
@@ -340,6 +343,11 @@ class ConcreteFactory:
     def assume(self, cond):
         if not cond:
             self.rejected = True
+
+    def seeded_rng(self, name):
+        """a reproducible random generator for native-only builders (document generators): its seed is an input"""
+        seed = self._get(name, lambda: self.rng.randrange(1 << 30) if self.rng else 0)
+        return random.Random(seed)
 
     def enum_in(self, name, cls, allowed):
         ms = list(cls)
